@@ -589,12 +589,159 @@ def run_route(label, kind, conv, converter=True):
     return rec
 
 
+# ------------------------------------------------------------------------------------------------ onto an earlier file
+def over_existing(rec, elabel, E):
+    """the writer of `rec` onto a path that holds the complete, valid earlier file E (other data / other settings).
+    direct oracle: (1) the completed file is byte-identical to the one written onto a fresh path; (2) every crash state --
+    built from what the library's own open() left of E, observed on disk -- raises or returns what the complete NEW file
+    returns: no byte of E is ever decoded.  Crash states that also occur on a fresh path were evaluated there."""
+    label, final = rec['label'], rec['final']
+    out = os.path.join(d, label + '_over.sgz')
+    with open(out, 'wb') as f:
+        f.write(E)
+    how = 'longer' if len(E) > len(final) else 'shorter' if len(E) < len(final) else 'equal'
+    inp0 = {'route': label, 'output path held': elabel, 'earlier length': len(E), 'new length': len(final)}
+    try:
+        raw = record(out, lambda: rec['conv'](out))
+    except Exception as e:
+        R.violation('oracle', inp0, f'the writer raised {type(e).__name__}: {e} because the output path exists')
+        return
+    events = [(h, o, b) for (h, o, b) in raw if o >= 0]
+    final2 = open(out, 'rb').read()
+    os.remove(out)
+    R.case((label, 'over', elabel, 'complete'), nontrivial=True, sample=inp0 if how == 'longer' else None)
+    R.count('over_existing:' + how)
+    if final2 != final:
+        k = next((i for i, (x, y) in enumerate(zip(final2, final)) if x != y), min(len(final2), len(final)))
+        old = sum(1 for i in range(k, min(len(final2), len(E))) if final2[i] == E[i] and (i >= len(final) or final[i] != E[i]))
+        R.violation('oracle', dict(inp0, state={'history': 'complete'}),
+                    f'the completed file over an earlier file ({len(final2)} bytes) is not the file written onto a fresh path '
+                    f'({len(final)} bytes): first difference at byte {k}, {old} bytes are those of the earlier file')
+    if replay(events) != final2:
+        R.violation('corr', inp0, 'replaying the recorded write events onto what the open left of the earlier file does not give the finished file')
+        return
+    if events == rec['events']:
+        return            # the open left nothing of E and the writes are the same: the crash states are those of the fresh path
+    shape = shape_of(events, rec['data_end'])
+    states = crash_states(events, shape, final2)
+    new = [(b, desc) for b, desc in states.items() if b != E and hashlib.sha1(b).digest() not in rec['digests']]
+    R.count('over_existing_new_states', len(new))
+    if len(new) > 300:
+        new = [new[(i * len(new)) // 300] for i in range(300)]
+    hdr_final = final[:960] + final[980:8192]
+    n_state = {}
+    for b, desc in new:
+        L = len(b)
+        hdr_is_final = L >= 8192 and (b[:960] + b[980:8192]) == hdr_final
+        hash_is_final = L >= 980 and b[960:980] == final[960:980]
+        for name, args in rec['ops']:
+            res, _ = do_op(b, name, args)
+            inp = dict(inp0, state=desc, length=L, call=name, args=list(args))
+            R.case((label, elabel, hashlib.sha1(b).hexdigest()[:12], name, args), nontrivial=True)
+            judge(inp, desc, name, res, rec['want'][(name, args)], hdr_is_final, hash_is_final, n_state)
+
+
+def earlier_files(recs):
+    """pool of complete valid SGZ files: every route's output, its twin (other data, same shape and settings), a large one
+    (16-bit, exhaustive) and a small one (2-bit, strip); per route one longer, one equal and one shorter file of OTHER data"""
+    pool = []
+    for (label, kind, conv, twin, src), rec in recs:
+        if rec is not None:
+            pool.append((label, src, rec['final']))
+        q = os.path.join(d, label + '_twin.sgz')
+        twin(q)
+        pool.append((label + '_twin', src + '_twin', open(q, 'rb').read()))
+        os.remove(q)
+    big, small = os.path.join(d, 'big.sgy'), os.path.join(d, 'small.sgy')
+    mk_segy(big, rnd_cube(rng2, (17, 18, 40)), 500 + np.arange(17), 900 + 2 * np.arange(18))
+    mk_segy(small, rnd_cube(rng2, (4, 4, 8)), 1 + np.arange(4), 1 + np.arange(4))
+    for name, sgy, kw in (('earlier_16bit_exhaustive', big, dict(bpv=16, header_detection='exhaustive')),
+                          ('earlier_2bit_strip', small, dict(bpv=2, header_detection='strip'))):
+        q = os.path.join(d, name + '.sgz')
+        write_segy_sgz(sgy, q, **kw)
+        pool.append((name, name, open(q, 'rb').read()))
+    return pool
+
+
+def pick(pool, src, L):
+    """{'longer' / 'equal' / 'shorter': (name, bytes)} from the pool entries of other data"""
+    out = {}
+    for how, ok in (('longer', lambda n: n > L), ('equal', lambda n: n == L), ('shorter', lambda n: n < L)):
+        c = [(n, b) for n, s_, b in pool if s_ != src and ok(len(b))]
+        if c:
+            out[how] = rng2.choice(c)
+        else:
+            R.count('over_existing_none_' + how)
+    return out
+
+
+def copy_writers(recs, pool):
+    """cropper (by indexes, by coordinates), re-blocker, SEG-Y export: crash states of the writer onto a fresh path, then the
+    same writer onto a path holding an older, longer file"""
+    by = {r[0][0]: r for r in recs}
+    src_label = 'segy_heuristic_iops'
+    src = os.path.join(d, src_label + '.sgz')              # 10..15 x 6 x 20, header arrays stored
+    with SgzReader(src) as r:
+        il, xl = [int(x) for x in r.ilines], [int(x) for x in r.xlines]
+
+    def crop_idx(p):
+        with SgzCropper(src) as c:
+            quiet(c.write_cropped_file_by_indexes, p, iline_index_range=(4, 9), xline_index_range=(0, 4))
+
+    def crop_coord(p):
+        with SgzCropper(src) as c:
+            quiet(c.write_cropped_file_by_coords, p, iline_coord_range=(il[4], il[-1]), zslices_coord_range=(0, 48))
+    sgy5 = os.path.join(d, 'iops.sgy')
+    src2 = os.path.join(d, 'iops_2bit.sgz')
+    write_segy_sgz(sgy5, src2, bpv=2)
+
+    def reblock(p):
+        with SgzConverter(src2) as c:
+            quiet(c.convert_to_adv_sgz, p)
+    for label, fn in (('crop_by_indexes', crop_idx), ('crop_by_coords', crop_coord), ('reblock_adv', reblock)):
+        rec = run_route(label, '3d', fn, converter=False)
+        if rec is not None:
+            for how, (elabel, E) in pick(pool, by[src_label][0][4], len(rec['final'])).items():
+                if how == 'longer' or not QUICK:
+                    over_existing(rec, elabel, E)
+    # SEG-Y export (segyio writes the file, the library patches the file header through its own handle): the completed file
+    # over an older, longer file (an SGZ and a SEG-Y) must be the fresh one, and so must what the patch handle found
+    def export(p):
+        with SgzConverter(src) as c:
+            quiet(c.convert_to_segy, p)
+    fresh = os.path.join(d, 'export_fresh.sgy')
+    ev0 = [e for e in record(fresh, lambda: export(fresh)) if e[1] >= 0]
+    F = open(fresh, 'rb').read()
+    for elabel, E in (('earlier_16bit_exhaustive', [b for n, s_, b in pool if n == 'earlier_16bit_exhaustive'][0]),
+                      ('big.sgy', open(os.path.join(d, 'big.sgy'), 'rb').read())):
+        q = os.path.join(d, 'export_over.sgy')
+        with open(q, 'wb') as f:
+            f.write(E)
+        inp0 = {'route': 'convert_to_segy', 'output path held': elabel, 'earlier length': len(E), 'new length': len(F)}
+        ev = [e for e in record(q, lambda: export(q)) if e[1] >= 0]
+        F2 = open(q, 'rb').read()
+        os.remove(q)
+        R.case(('convert_to_segy', 'over', elabel), nontrivial=len(E) > len(F), sample=inp0)
+        R.count('over_existing:segy_export')
+        if F2 != F:
+            R.violation('oracle', inp0, f'the exported SEG-Y over an earlier file has {len(F2)} bytes and is not the file exported '
+                                        f'onto a fresh path ({len(F)} bytes)')
+        elif ev != ev0:
+            R.violation('oracle', inp0, 'the exported SEG-Y is complete, but the patch handle found / wrote other bytes than on a fresh path')
+
+
 import itertools, re
 try:
-    total = 0
-    for label, kind, conv in routes():
-        total += run_route(label, kind, conv)
-    R.notes.append(f'{total} distinct crash states')
+    recs = []
+    for rt in routes():
+        recs.append((rt, run_route(rt[0], rt[1], rt[2])))
+    R.notes.append(f'{sum(rec["n_states"] for rt, rec in recs if rec)} distinct crash states')
+    pool = earlier_files(recs)
+    for (label, kind, conv, twin, src), rec in recs:
+        if rec is not None:
+            for how, (elabel, E) in pick(pool, src, len(rec['final'])).items():
+                over_existing(rec, elabel, E)
+    copy_writers(recs, pool)
 finally:
     shutil.rmtree(d, ignore_errors=True)
 R.write(a.out)
